@@ -505,6 +505,188 @@ def post_cases(r, n_cases, scratch: Path, only_seeds=None):
 
 
 
+# ------------------------------------------------------------------------------------------------
+# exporter re-execution: a statement in the MIDDLE of a test raises only at export time
+STATE_SUT = """
+import os
+
+QUOTA = 3
+_calls = 0
+
+
+class QuotaError(Exception):
+    pass
+
+
+def take(n=1):
+    global QUOTA
+    if QUOTA < n:
+        raise QuotaError("quota exhausted")
+    QUOTA -= n
+    return QUOTA
+
+
+def env_value():
+    return os.environ["C19_EXPORT_ENV"]          # KeyError when the variable is not set
+
+
+def ident(x=0):
+    return x
+
+
+def pair(a=1, b=2):
+    return [a, b]
+
+
+class Acc:
+    def __init__(self, start=0):
+        self.value = start
+
+    def add(self, n=1):
+        self.value += n
+        return self.value
+"""
+
+
+def build_reexec_test(r, alias):
+    """A test case whose middle statement (binding a variable) raises when the exporter re-executes it
+    (quota used up / environment variable gone), followed by statements carrying assertions."""
+    import libcst as cst
+    import pynguin.assertion.assertion as ass
+    from unittest.mock import MagicMock
+    from pynguin.testcase.testcase import Statement, TestCase
+    from pynguin.utils.generic.genericaccessibleobject import GenericFunction
+
+    tc = TestCase()
+    rows = []
+    nv = 0
+
+    def add(code_rhs, bound=True, asserts=(), expected=None):
+        nonlocal nv
+        bv = f"var_{nv}" if bound else None
+        nv += 1 if bound else 0
+        code = f"{bv} = {code_rhs}" if bound else code_rhs
+        st = Statement(node=cst.parse_statement(code + "\n"), bound_variable=bv, bound_type=None,
+                       assertions=[f(bv) for f in asserts])
+        if expected is not None:
+            acc = MagicMock(spec=GenericFunction)
+            acc.expected_exceptions = set(expected)
+            st.accessible = acc
+        tc._statements.append(st)
+        return bv
+
+    own_int = lambda k: (lambda v: ass.ObjectAssertion(v, k))  # noqa: E731
+    for _ in range(r.choice([0, 1, 2])):                      # prefix
+        k = r.randrange(9)
+        v = add(f"{alias}.ident({k})", asserts=[own_int(k)] if r.random() < 0.7 else [])
+    acc = add(f"{alias}.Acc(2)", asserts=[lambda v: ass.ObjectAssertion(v + ".value", 2)]) if r.random() < 0.6 else None
+    kind = r.choice(["quota", "env", "quota"])
+    expected = r.choice([None, None, ["QuotaError", "KeyError"]])
+    raising = add(f"{alias}.take()" if kind == "quota" else f"{alias}.env_value()", bound=r.random() < 0.85,
+                  asserts=[], expected=expected)
+    n_after = r.choice([1, 2, 3])
+    for j in range(n_after):                                  # statements after the raising one, with assertions
+        c = r.random()
+        if acc is not None and c < 0.4:
+            add(f"{acc}.add(1)", asserts=[lambda v: ass.ObjectAssertion(v, 3 + 0), lambda v: ass.ObjectAssertion(acc + ".value", 3)])
+        elif raising is not None and c < 0.55:
+            add(f"{alias}.ident({raising})", asserts=[own_int(1)])        # reads the variable that is not bound at export
+        else:
+            k = r.randrange(9)
+            add(f"{alias}.pair({k}, 1)", asserts=[lambda v: ass.CollectionLengthAssertion(v, 2), lambda v, k=k: ass.ObjectAssertion(v, [k, 1])])
+    tc._var_counter = nv
+    tc._rebuild_registry()
+    return tc, kind
+
+
+def reexec_cases(r, n_cases, scratch: Path):
+    import importlib
+    import os
+    import sys
+
+    import pynguin.ga.testcasechromosome as tcc
+    import pynguin.ga.testsuitechromosome as tsc
+    from pynguin.testcase import export
+    from pynguin.utils.naming import get_module_alias
+
+    name = "c19_state_sut"
+    (scratch / f"{name}.py").write_text(STATE_SUT)
+    if str(scratch) not in sys.path:
+        sys.path.insert(0, str(scratch))
+    importlib.invalidate_caches()
+    mod = importlib.import_module(name)
+    alias = get_module_alias(name)
+    lens = []
+    orig = export.TestSuiteWriter._per_statement_exceptions
+
+    def spy(self, tc_, *a, **k):
+        res = orig(self, tc_, *a, **k)
+        lens.append((tc_.size(), len(res), sum(1 for e in res if e is not None)))
+        return res
+
+    export.TestSuiteWriter._per_statement_exceptions = spy
+    fails, xcases, stats = [], [], {}
+    try:
+        for k in range(n_cases):
+            seed = r.randrange(10**9)
+            rr = random.Random(seed)
+            no_xfail = rr.random() < 0.5
+            tcs = [build_reexec_test(rr, alias) for _ in range(rr.choice([1, 2]))]
+            suite = tsc.TestSuiteChromosome()
+            pres, snaps = [], []
+            for tc, _kind in tcs:
+                pa = L.abs_tc(tc)
+                for i_, s_ in enumerate(tc._statements):
+                    pa["stmts"][i_]["rtext"] = [rendered_text(a) for a in s_.assertions]
+                pres.append(pa)
+                snaps.append(snapshot(tc))
+                suite.add_test_case_chromosome(tcc.TestCaseChromosome(test_case=tc))
+            # export-time state: the quota is used up, the environment variable is gone
+            mod.QUOTA = 0
+            os.environ.pop("C19_EXPORT_ENV", None)
+            del lens[:]
+            path = export.TestSuiteWriter(no_xfail=no_xfail).write(suite, name, scratch / f"x{k}", project_path=str(scratch),
+                                                                   format_with_black=False)
+            text = path.read_text()
+            fns = [n for n in ast.parse(text).body if isinstance(n, ast.FunctionDef) and n.name.startswith("test_")]
+            mode = "no_xfail" if no_xfail else "xfail"
+            stats["reexec:" + mode] = stats.get("reexec:" + mode, 0) + 1
+            stats["reexec:raised-statements"] = stats.get("reexec:raised-statements", 0) + sum(x[2] for x in lens)
+            found = []
+            for (size, n_exc, _), snap in zip(lens, snaps):
+                if n_exc != size:
+                    found.append((f"export:exception-list-length:{mode}", f"_per_statement_exceptions returned {n_exc} entries for "
+                                  f"{size} statements (zip in _build_test_function drops the rest)"))
+            if len(fns) != len(tcs):
+                found.append(("export:function-count", f"{len(tcs)} test cases, {len(fns)} functions"))
+            else:
+                for i, (fn, snap, pa) in enumerate(zip(fns, snaps, pres)):
+                    items = parse_function(fn, text)
+                    g = compare_export(snap, items, f"write with re-execution ({mode}), test_{i}")
+                    if g:
+                        sig = g[0].replace("export:", "export:reexec-") + ":" + mode
+                        found.append((sig, g[1]))
+                    if i < len(lens):
+                        xcases.append((pa, lens[i][1], items))
+            seen = set()
+            for sig, msg in found:
+                if sig not in seen:
+                    seen.add(sig)
+                    fails.append({"signature": sig, "message": msg + f" [reexec_seed {seed}, no_xfail={no_xfail}]",
+                                  "replay": {"reexec_seed": seed}})
+    finally:
+        export.TestSuiteWriter._per_statement_exceptions = orig
+    return fails, xcases, stats
+
+
+def c_xcase_reexec(pre_abs, n_exc, items):
+    body = c_ecase_with_render(pre_abs, items)          # "(tc, obs)"
+    # split once at the top-level separator between the test case and the observation list
+    cd_tc, obs = body[1:-1].rsplit(", [", 1)
+    return "(%s, %d%%nat, [%s)" % (cd_tc, n_exc, obs)
+
+
+
 def post_cases_single(seed, scratch):
     """Replay one post-processing suite."""
     return post_cases(None, 0, scratch, only_seeds=[seed])
@@ -682,6 +864,12 @@ def run(ctx: vlib.Ctx):
     for i_ in range(pstats.get("post:CASE-F", 0) + pstats.get("post:CASE-B", 0) + pstats.get("post:COMBINED", 0)):
         ctx.case_seen(("post", i_, ctx.seed), nontrivial=True)
     fails += pfails
+    xfails, xcases, xstats = reexec_cases(r, 60 if ctx.quick else 600, scratch)
+    fails += xfails
+    for k_, v_ in xstats.items():
+        stats[k_] = v_
+    for pa_, n_, it_ in xcases:
+        ctx.case_seen(("reexec", repr(it_), n_), nontrivial=True)
     ctx.log(f"direct: {len(rcases)} remove_unused_variables cases, {len(ecases)} export cases, "
             f"{sum(v for k, v in pstats.items() if k in ('post:CASE-F', 'post:CASE-B', 'post:COMBINED'))} post-processing suites, "
             f"{len(fails)} oracle failures")
@@ -734,7 +922,10 @@ def run(ctx: vlib.Ctx):
     ctx.leg("S", direct_cases=len(rcases) + len(ecases), oracle_failures=len(fails), e2e_runs=len(tasks), e2e_failures=n_e2e_fail)
     b1 = ctx.run_cases("C19_ruv", IMPORTS, "C19.rcase", "C19.check_ruv", rc_terms, shard=600)
     b2 = ctx.run_cases("C19_export", IMPORTS, "C19.ecase", "C19.check_export", ec_coq, shard=600)
+    xc_coq = [c_xcase_reexec(pa_, n_, it_) for pa_, n_, it_ in xcases]
+    b3 = ctx.run_cases("C19_reexec", IMPORTS, "C19.xcase", "C19.check_export_x", xc_coq, shard=600)
     for name, bad, pool_, what in (
+        ("C19-reexec-model", b3, xc_coq, "the export model with per-statement re-execution (one exception entry per statement, complete body) no longer reproduces the written test function"),
         ("C19-ruv-model", b1, rc_terms, "the model of remove_unused_variables (about which assertion preservation is proved) no longer reproduces the implementation"),
         ("C19-export-model", b2, ec_coq, "the export model (statement followed by its renderable assertions) no longer reproduces the written test function"),
     ):
@@ -774,6 +965,13 @@ def c_ecase_with_render(pre_abs, items):
 def replay(ctx, path):
     vlib.setup_impl_path()
     d = json.loads(open(path).read())["replay"]
+    if "reexec_seed" in d:
+        class _R:
+            def randrange(self, n):
+                return d["reexec_seed"]
+        fs, _x, _s = reexec_cases(_R(), 1, ctx.mkscratch())
+        print(json.dumps(fs, indent=1))
+        return 0
     if "post_seed" in d:
         import pynguin.ga.postprocess as pp
 
